@@ -19,6 +19,10 @@ REQUIRED = (["accept-%d-fields" % k for k in range(1, 6)] + ["reject-empty", "re
             "reject-wrong-type", "reject-no-domain-type", "reject-domain-value-missing-member", "reject-domain-value-extra-member",
             "accepted-digests-equal"])
 F = eip712.DOMAIN_FIELDS
+FOREIGN = [("description", "string"), ("Name", "string"), ("NAME", "string"), ("name ", "string"), (" name", "string"), ("chainid", "uint256"),
+           ("chainID", "uint256"), ("ChainId", "uint256"), ("chain_id", "uint256"), ("", "string"), ("verifyingcontract", "address"),
+           ("VerifyingContract", "address"), ("verifying_contract", "address"), ("salt2", "bytes32"), ("Salt", "bytes32"), ("SALT", "bytes32"),
+           ("names", "string"), ("Version", "string"), ("VERSION", "string"), ("version\u200b", "string"), ("x", "uint8"), ("n\u0430me", "string")]
 SUBST = ["bytes", "bytes31", "bytes32", "uint", "uint255", "uint256", "uint8", "int256", "string", "string[]", "address", "address[1]", "bool",
          "Foo", "bytes32[]", "uint256[]", "String", "bytes1"]
 
@@ -120,9 +124,18 @@ def gen(shard, rng, tier):
         for _ in range(shard["reps"]):
             for dom in tdgen.domain_subsets():
                 for pos in range(len(dom) + 1):
-                    foreign = rng.choice([("description", "string"), ("Name", "string"), ("name ", "string"), ("chainid", "uint256"), ("", "string"),
-                                          ("verifyingcontract", "address"), ("salt2", "bytes32"), ("names", "string"), ("x", "uint8")])
+                    foreign = rng.choice(FOREIGN)
                     m = list(dom[:pos]) + [foreign] + list(dom[pos:])
+                    yield from both(_doc(rng, m, "foreign-name"))
+            # every foreign name alone, first and last in the full domain, and *instead of* the standard field it resembles
+            for foreign in FOREIGN:
+                yield from both(_doc(rng, [foreign], "foreign-name"))
+                yield from both(_doc(rng, [foreign] + list(F), "foreign-name"))
+                yield from both(_doc(rng, list(F) + [foreign], "foreign-name"))
+                like = [i for i, (n, _) in enumerate(F) if n.lower() == foreign[0].strip().lower()]
+                if like:
+                    m = list(F)
+                    m[like[0]] = foreign
                     yield from both(_doc(rng, m, "foreign-name"))
     elif name == "substitutions":
         for _ in range(shard["reps"]):
